@@ -202,6 +202,9 @@ def rand_param_schema(r, enums):
     if x < 0.62:
         it = r.choice([{"type": "string"}, {"type": "integer"}, {"type": "string", "enum": ["a", "b"]}, {"type": "number"}, {"type": "string", "format": "uuid"}])
         s = {"type": "array", "items": it}
+        if r.random() < 0.25:
+            # a default on an array parameter (element values of the item type)
+            s["default"] = [] if r.random() < 0.3 else [{"string": "a", "integer": 1, "number": 1.5}.get(it["type"], "a")] if "format" not in it else []
         return s
     if x < 0.75:
         return rand_enum(r)
@@ -232,9 +235,10 @@ def rand_op(r, idx, names, comps):
         p = {"name": nm, "in": loc, "schema": sch}
         if loc == "path" or r.random() < 0.4:
             p["required"] = True
-        if loc == "query" and sch.get("type") == "array" and r.random() < 0.5:
-            p["explode"] = r.random() < 0.5
-            if r.random() < 0.4:
+        if loc == "query" and sch.get("type") == "array":
+            if r.random() < 0.6:
+                p["explode"] = r.random() < 0.5
+            if r.random() < 0.5:
                 p["style"] = r.choice(["form", "spaceDelimited", "pipeDelimited"])
         (params_item if r.random() < 0.3 else params_op).append(p)
     op = {"operationId": "op%d" % idx, "responses": {}}
@@ -353,3 +357,54 @@ def wrap(schemas, body=None, resp=None, params=None, method="post", body_ct="app
     if resp is not None:
         op["responses"][resp_key]["content"] = {resp_ct: {"schema": ref(resp) if isinstance(resp, str) else resp}}
     return {"openapi": "3.1.0", "info": {"title": "t", "version": "1"}, "paths": {path: {method: op}}, "components": {"schemas": copy.deepcopy(schemas)}}
+
+
+# ---------------------------------------------------------------------------------------------------------------
+# ARRAY PARAMETERS (bounded-exhaustive dimension): query parameters of type array x items {string, integer, enum}
+# x style {absent, form, spaceDelimited, pipeDelimited} x explode {absent, true, false} x required x with/without a
+# schema default x declared at operation / path-item level; header parameters (style does not apply) x items x
+# required x default x level.
+ARRAY_ITEMS = {"str": ({"type": "string"}, ["a"]), "int": ({"type": "integer"}, [1]), "enum": ({"type": "string", "enum": ["a", "b"]}, ["a"])}
+ARRAY_STYLES = [None, "form", "spaceDelimited", "pipeDelimited"]
+ARRAY_EXPLODES = [None, True, False]
+
+
+def array_param(name, loc, items, style=None, explode=None, required=False, default=False):
+    sch = {"type": "array", "items": copy.deepcopy(ARRAY_ITEMS[items][0])}
+    if default:
+        sch["default"] = list(ARRAY_ITEMS[items][1])
+    p = {"name": name, "in": loc, "schema": sch}
+    if required:
+        p["required"] = True
+    if style is not None:
+        p["style"] = style
+    if explode is not None:
+        p["explode"] = explode
+    return p
+
+
+def array_param_space():
+    """every point of the dimension as (key, location, level, kwargs of array_param)"""
+    out = []
+    for items in ARRAY_ITEMS:
+        for level in ("op", "path"):
+            for required in (False, True):
+                for default in (False, True):
+                    for style in ARRAY_STYLES:
+                        for explode in ARRAY_EXPLODES:
+                            key = "q-%s-%s-%s-%s-%s-%s" % (items, level, "req" if required else "opt", "dflt" if default else "nodflt", style or "nostyle", {None: "noexp", True: "exp", False: "noexpl"}[explode])
+                            out.append((key, "query", level, dict(items=items, style=style, explode=explode, required=required, default=default)))
+                    key = "h-%s-%s-%s-%s" % (items, level, "req" if required else "opt", "dflt" if default else "nodflt")
+                    out.append((key, "header", level, dict(items=items, required=required, default=default)))
+    return out
+
+
+def array_param_spec(points):
+    """one GET operation carrying the given points of the dimension as parameters p0, p1, ... (distinct names)"""
+    op = {"operationId": "op", "responses": {"200": {"description": "ok", "content": {"application/json": {"schema": ref("A")}}}}}
+    item = {"get": op}
+    for i, (key, loc, level, kw) in enumerate(points):
+        p = array_param(("p%d" % i) if loc == "query" else ("X-P%d" % i), loc, **kw)
+        (item if level == "path" else op).setdefault("parameters", []).append(p)
+    return {"openapi": "3.1.0", "info": {"title": "t", "version": "1"}, "paths": {"/op": item},
+            "components": {"schemas": {"A": {"type": "object", "properties": {"x": {"type": "string"}}}}}}
